@@ -24,6 +24,11 @@ impl<R: BufRead> Base64Reader<R> {
     pub fn into_inner(self) -> R {
         self.inner
     }
+
+    /// Takes the error of the inner reader that has not been reported yet, if any.
+    pub(crate) fn take_deferred_err(&mut self) -> Option<io::Error> {
+        self.deferred_err.take()
+    }
 }
 
 impl<R: BufRead> Read for Base64Reader<R> {
